@@ -177,7 +177,7 @@ pub fn upload(c: &Case, rep: &mut Report) -> Result<&'static str, (String, Strin
 fn dup_vectors(n: usize, thorough: bool) -> Vec<Vec<u8>> {
     let mut v: Vec<Vec<u8>> = Vec::new();
     if n <= 4 || (thorough && n <= 5) {
-        let base: u64 = if thorough { 3 } else { 2 };
+        let base: u64 = 3;
         for i in 0..base.pow(n as u32) {
             v.push(decode(i, &vec![base; n]).iter().map(|d| *d as u8 + 1).collect());
         }
@@ -242,7 +242,7 @@ pub fn run(ctx: &Ctx, rep: &mut Report) {
             let bs = rb::size(szx);
             let top = if ctx.thorough() { 4 * bs + 1 } else { 3 * bs + 1 };
             for len in 0..=top {
-                for dv in dup_vectors(nblocks(len, bs), ctx.thorough()) {
+                for dv in dup_vectors(nblocks(len, bs), true) {
                     table.push((szx, len, dv));
                 }
             }
@@ -258,7 +258,7 @@ pub fn run(ctx: &Ctx, rep: &mut Report) {
         ctx.family(
             rep,
             "U1-every-length-small-blocks",
-            "first message id rotating over {0, 101, 65535, 65534} (ids count up and wrap); SZX 0 and 1 (thorough: 0..2) x every body length 0..=3*bs+1 (thorough: 4*bs+1) x duplicate vectors (every vector over {1,2}(quick) / {1,2,3}(thorough) deliveries per block for <= 4 blocks) x budget {admits the block size with 32 bytes + 0/1/100 to spare, 1152} x abandoned predecessor upload of 0..6 blocks (same or next larger block size, distinct fill); each a complete upload",
+            "first message id rotating over {0, 101, 65535, 65534} (ids count up and wrap); SZX 0 and 1 (thorough: 0..2) x every body length 0..=3*bs+1 (thorough: 4*bs+1) x duplicate vectors (every vector over {1,2,3} deliveries per block for <= 4 blocks (thorough: <= 5)) x budget {admits the block size with 32 bytes + 0/1/100 to spare, 1152} x abandoned predecessor upload of 0..6 blocks (same or next larger block size, distinct fill); each a complete upload",
             n,
             true,
             |i, rep| {
